@@ -163,6 +163,60 @@ class NetWorld(World):
                         m["prepared"] is not None, m["grown_since_prepare"], m["exact"]))
         return tuple(out)
 
+    # ------------------------------------------------ invariant after every step
+    def execute(self, step):
+        out = World.execute(self, step)
+        if not self.violations and out[0] not in ("skipped", "hang"):
+            saved = self.cur
+            try:
+                self._check_structure()
+            except HarnessError:
+                raise
+            except Exception as e:  # noqa: BLE001 - reading the real networks is tracklib code
+                import traceback
+                tb = traceback.extract_tb(e.__traceback__)
+                if not any("tracklib" in f.filename for f in tb):
+                    raise
+                self.fail(self.prop_of(step), "network.unreadable", "reading the networks after %s raised %s: %s"
+                          % (step["op"], type(e).__name__, e), "readable networks", repr(e))
+            self.cur = saved
+        return out
+
+    def _check_structure(self):
+        """Every network of every session is, after every step, exactly what its own history
+        made it: node and edge identifiers in insertion order, end nodes, orientation, weight,
+        geometry and node positions.  Nothing a *query*, a matching or the other session does
+        may show here (results handed to callers share no object with the network)."""
+        self.cur = None            # never demoted to a note: a changed network is nobody's read-only query
+        for s in sorted(self.model):
+            net, m = self.real[s], self.model[s]
+            ids = list(m["nodes"])
+            if list(net.getNodesId()) != ids:
+                return self.fail("C06", "network.structure", "node identifiers of the network of session %d" % s,
+                                 ids, list(net.getNodesId()))
+            eids = [e["id"] for e in m["edges"]]
+            if list(net.getEdgesId()) != eids:
+                return self.fail("C06", "network.structure", "edge identifiers of the network of session %d" % s,
+                                 eids, list(net.getEdgesId()))
+            for e in m["edges"]:
+                ed = net.getEdge(e["id"])
+                got = [ed.source.id, ed.target.id, ed.orientation]
+                if got != [e["s"], e["t"], e["o"]]:
+                    return self.fail("C06", "network.structure", "end nodes / orientation of edge %s (session %d)"
+                                     % (e["id"], s), [e["s"], e["t"], e["o"]], got)
+                if not self._deq(m, ed.weight, e["w"]):
+                    return self.fail("C06", "network.structure", "weight of edge %s (session %d)" % (e["id"], s),
+                                     e["w"], ed.weight)
+                pts = [[o.position.getX(), o.position.getY()] for o in ed.geom]
+                if pts != e["pts"]:
+                    return self.fail("C07", "network.geometry_changed", "the stored geometry of edge %s (session %d) "
+                                     "changed although no step edited the network" % (e["id"], s), e["pts"], pts)
+            for v, p in m["nodes"].items():
+                c = net.getNode(v).coord
+                if [c.getX(), c.getY()] != list(p):
+                    return self.fail("C07", "network.geometry_changed", "the position of node %s (session %d) changed "
+                                     "although no step edited the network" % (v, s), list(p), [c.getX(), c.getY()])
+
     # ----------------------------------------------------------------- model
     def _fw(self, m):
         if m["fw"] is not None:
